@@ -40,6 +40,7 @@ DEFAULT_PROFILE = dict(
     fault_kinds=['nan', '+inf', '-inf', '1e200', 'raise'],
     allow_raise=True,
     p_int_dtype=0.05,
+    p_increase_npt=0.3, p_momentum=0.3,
 )
 
 
@@ -250,8 +251,10 @@ def draw(base_seed, index, prof=None, salt=''):
         if rnd.random() < P['p_infeasible_x0']:
             feats.append('x0_infeasible')
             x0 = z + _unit(g, n) * rhobeg * rnd.choice([5.0, 30.0, 100.0])
+            rhobeg_arg = rhobeg      # the default depends on x0, which has just moved
         elif rnd.random() < 0.5:
             x0 = z + _unit(g, n) * rhobeg * rnd.uniform(0.0, 0.9)
+            rhobeg_arg = rhobeg
     # ---- regulariser ----------------------------------------------------------------------------------------
     reg = None
     if has_reg:
@@ -309,7 +312,7 @@ def draw(base_seed, index, prof=None, salt=''):
                 setp('restarts.soft.move_xk', False)
             if rnd.random() < 0.3:
                 setp('restarts.soft.num_geom_steps', rnd.choice([0, 1, 2, 5]))
-        if rnd.random() < 0.3 and not has_sets:
+        if rnd.random() < P['p_increase_npt'] and not has_sets:
             setp('restarts.increase_npt', True)
             setp('restarts.max_npt', rnd.randint(npt_eff, max(npt_eff, 2 * n + 1)))
             if rnd.random() < 0.3:
@@ -332,12 +335,12 @@ def draw(base_seed, index, prof=None, salt=''):
     if npt_eff > n + 1 and rnd.random() < 0.6 or rnd.random() < P['p_regression'] * 0.3:
         setp('regression.num_extra_steps', rnd.choice([1, 1, 2, n]))
         feats.append('regression_steps')
-        if rnd.random() < 0.3 and not has_sets:
+        if rnd.random() < P['p_momentum'] and not has_sets:
             setp('regression.momentum_extra_steps', True)
             feats.append('momentum')
         if rnd.random() < 0.2:
             setp('regression.increase_num_extra_steps_with_restart', 1)
-    if rnd.random() < P['p_random_init'] or npt_eff > 2 * n + 1 and rnd.random() < 0.5:
+    if rnd.random() < P['p_random_init'] or (npt_eff > 2 * n + 1 and P['p_random_init'] > 0 and rnd.random() < 0.5):
         if npt_eff <= (n + 1) * (n + 2) // 2:
             setp('init.random_initial_directions', True)
         feats.append('random_init')
@@ -428,8 +431,12 @@ def draw(base_seed, index, prof=None, salt=''):
         setp('dykstra.d_tol', rnd.choice([1e-6, 1e-8, 1e-12]))
         if rnd.random() < 0.5:
             setp('dykstra.max_iters', rnd.choice([5, 20, 1000]))
-    if has_reg and rnd.random() < 0.3:
-        setp('func_tol.max_iters', rnd.choice([20, 100]))
+    if has_reg:
+        # cost control: one regularised solve costs iterations x 2 S-FISTA runs x (<=500 steps) x Dykstra sweeps, all in Python
+        if rnd.random() < 0.85:
+            setp('func_tol.max_iters', rnd.choice([20, 50, 100]))
+        elif mf is None or mf > 20:
+            mf = 20
 
     # ---- environment ----------------------------------------------------------------------------------------
     noise = {'kind': 'none', 'level': 0.0, 'seed': 0}
@@ -624,6 +631,8 @@ def derive_features(scn):
         f.add('int_dtype')
     if a.get('argsf'):
         f.add('argsf')
+    if scn.get('arg_fault'):
+        f.add('argfault:%s' % scn['arg_fault']['name'])
     return sorted(f)
 
 
